@@ -175,15 +175,10 @@ func (s *Set) build(dst reflect.Value, t corpus.TypeExpr, v *model.Value) {
 }
 
 func (s *Set) buildRecord(dst reflect.Value, td *corpus.TypeDef, v *model.Value) {
-	for _, inc := range td.Includes {
-		itd := s.Schema.Lookup(inc)
-		emb := dst.FieldByName(itd.Name)
-		if !emb.IsValid() {
-			panic("record " + td.Name + " does not embed " + itd.Name)
-		}
-		s.buildRecord(emb, itd, v)
-	}
-	for _, f := range td.Fields {
+	// Inherited fields are reached as promoted fields: the v2 generator embeds the included record (which embeds its own
+	// includes), the root generator embeds the declaring record of every inherited field directly; FieldByName resolves
+	// both layouts (the shallowest match wins, which is the one the generated marshalers use).
+	for _, f := range s.Schema.AllFields(td) {
 		fv := v.Fields[f.Name]
 		if fv == nil {
 			continue
@@ -294,11 +289,7 @@ func (s *Set) read(src reflect.Value, t corpus.TypeExpr) *model.Value {
 }
 
 func (s *Set) readRecord(src reflect.Value, td *corpus.TypeDef, v *model.Value) {
-	for _, inc := range td.Includes {
-		itd := s.Schema.Lookup(inc)
-		s.readRecord(src.FieldByName(itd.Name), itd, v)
-	}
-	for _, f := range td.Fields {
+	for _, f := range s.Schema.AllFields(td) {
 		gf := src.FieldByName(corpus.GoFieldName(f.Name))
 		if !gf.IsValid() {
 			panic("record " + td.Name + " has no Go field for " + f.Name)
